@@ -7,11 +7,14 @@
 package main
 
 import (
+	"bytes"
+	"context"
 	"encoding/json"
 	"fmt"
 	"os"
 	"path/filepath"
 	"strings"
+	"time"
 
 	"github.com/benhoyt/goawk/interp"
 	"github.com/benhoyt/goawk/parser"
@@ -40,7 +43,9 @@ func (r implResult) line() string {
 	return fmt.Sprintf("ok %d %s", r.Status, ev)
 }
 
-func writeRecs(path string, recs []string, noNL bool) error {
+var onDisk = map[string]string{} // what the temp dir currently holds
+
+func recsText(recs []string, noNL bool) string {
 	var sb strings.Builder
 	for i, r := range recs {
 		sb.WriteString(r)
@@ -48,26 +53,42 @@ func writeRecs(path string, recs []string, noNL bool) error {
 			sb.WriteString("\n")
 		}
 	}
-	return os.WriteFile(path, []byte(sb.String()), 0o644)
+	return sb.String()
 }
 
 // runImpl: cwd is the harness's private temp dir.
+var tExec, tTotal time.Duration
+
 func runImpl(c *Case) (res implResult) {
-	for _, n := range fileNames {
-		os.Remove(n)
-	}
+	tt := time.Now()
+	defer func() { tTotal += time.Since(tt) }()
+	want := map[string]string{}
 	for _, f := range c.Files {
-		if strings.HasPrefix(f.Name, "./") {
-			continue
+		if !strings.HasPrefix(f.Name, "./") {
+			want[f.Name] = recsText(f.Recs, c.NoNL)
 		}
-		if err := writeRecs(f.Name, f.Recs, c.NoNL); err != nil {
+	}
+	for _, n := range fileNames {
+		txt, ok := want[n]
+		old, had := onDisk[n]
+		switch {
+		case !ok && had:
+			os.Remove(n)
+			delete(onDisk, n)
+		case ok && (!had || old != txt):
+			if err := os.WriteFile(n, []byte(txt), 0o644); err != nil {
+				res.Err = "harness: " + err.Error()
+				return
+			}
+			onDisk[n] = txt
+		}
+	}
+	if txt := recsText(c.Stdin, c.NoNL); onDisk["stdin.txt"] != txt || txt == "" {
+		if err := os.WriteFile("stdin.txt", []byte(txt), 0o644); err != nil {
 			res.Err = "harness: " + err.Error()
 			return
 		}
-	}
-	if err := writeRecs("stdin.txt", c.Stdin, c.NoNL); err != nil {
-		res.Err = "harness: " + err.Error()
-		return
+		onDisk["stdin.txt"] = txt
 	}
 	in, err := os.Open("stdin.txt")
 	if err != nil {
@@ -78,7 +99,9 @@ func runImpl(c *Case) (res implResult) {
 	funcs := map[string]any{"H": func(s string) string { return hx.HexS(s) }}
 	cfg := &interp.Config{Stdin: in, Args: c.Args, Argv0: "goawk", Funcs: funcs, NoArgVars: c.NoArgVars, Environ: []string{},
 		Error: new(strings.Builder)}
-	rr := hx.RunAwk(c.P.awk(), cfg, &parser.ParserConfig{Funcs: funcs})
+	t0 := time.Now()
+	rr := runAwkCtx(c.P.awk(), cfg, &parser.ParserConfig{Funcs: funcs})
+	tExec += time.Since(t0)
 	res.Raw = string(rr.Out)
 	if rr.Panic != nil {
 		res.Panic = fmt.Sprint(rr.Panic)
@@ -98,6 +121,34 @@ func runImpl(c *Case) (res implResult) {
 	if rr.Err != nil {
 		res.Err = rr.Err.Error()
 	}
+	return
+}
+
+// runAwkCtx: like hx.RunAwk, with a watchdog (a script that does not terminate within 10 s
+// is reported as an error "context deadline exceeded").
+func runAwkCtx(src string, cfg *interp.Config, pcfg *parser.ParserConfig) (res hx.RunResult) {
+	defer func() {
+		if r := recover(); r != nil {
+			res.Panic = r
+		}
+	}()
+	prog, err := parser.ParseProgram([]byte(src), pcfg)
+	if err != nil {
+		res.Err = err
+		return
+	}
+	var out bytes.Buffer
+	c := *cfg
+	c.Output = &out
+	p, err := interp.New(prog)
+	if err != nil {
+		res.Err = err
+		return
+	}
+	ctx, cancel := context.WithTimeout(context.Background(), 10*time.Second)
+	defer cancel()
+	st, err := p.ExecuteContext(ctx, &c)
+	res.Out, res.Status, res.Err = out.Bytes(), st, err
 	return
 }
 
@@ -343,9 +394,13 @@ func main() {
 			rep.HarnessError("generated script does not terminate: %s", c.wire())
 			c.P = Prog{}
 		}
+		if os.Getenv("C11_DEBUG") != "" {
+			os.WriteFile("/tmp/c11_last.awk", []byte(fmt.Sprintf("# case %d args %q stdin %q files %v\n%s", i, c.Args, c.Stdin, c.Files, c.P.awk())), 0o644)
+		}
 		impls[i] = runImpl(c)
 		lines[i] = c.wire()
 	}
+	fmt.Fprintln(os.Stderr, "impl time: exec", tExec, "total", tTotal)
 	var models []string
 	if modelrun != "" {
 		models, err = hx.ModelEval(modelrun, lines)
